@@ -352,6 +352,17 @@ Section Closed.
     before_schedule N V st = set_flags N V st true (last_upd st).
   Proof. reflexivity. Qed.
 
+  (* an event of a type the simulator does not dispatch on is logged and otherwise ignored *)
+  Lemma process_other_eq (st : state) ts p c :
+    c <> 0 -> c <> 1 -> c <> 2 ->
+    process_event st (EOther ts p c) =
+    OkS (mkState (iter st) (resolve st) (last_upd st) (queue st) (occ st) (ev_hist st)
+                 (hist st) (calls st) (occ_log st) (num st)).
+  Proof.
+    intros H0 H1 H2. unfold SimSkel.process_event, Simulator_process_event. cbn [ev_session ev_code ev_ts].
+    apply Z.eqb_neq in H0, H1, H2. rewrite H0, H1, H2. reflexivity.
+  Qed.
+
   Lemma sched_phase_eq (st : state) :
     sched_phase st =
     if Simulator_recompute_cond (iter st) (last_upd st) (resolve st) maxrec then
@@ -403,6 +414,7 @@ Definition valid_event (stations : list Z) (e : event) : Prop :=
   match e with
   | EPlugin ts x => ts = s_arrival x /\ In (s_station x) stations /\ 0 <= s_arrival x < s_departure x
   | ERecompute ts => 0 <= ts
+  | EOther ts _ c => 0 <= ts /\ c <> 0 /\ c <> 1 /\ c <> 2     (* bare Event / user-defined subclass *)
   | EUnplug _ _ => False            (* unplug events are generated by the simulator, not given *)
   end.
 
@@ -450,8 +462,22 @@ Definition is_plug (k : Z * Z) (e : event) : bool :=
 Definition is_unpl (k : Z * Z) (e : event) : bool :=
   match e with EUnplug _ y => key_eqb (skey y) k | _ => false end.
 
-Definition is_rec (ts : Z) (e : event) : bool :=
-  match e with ERecompute u => Z.eqb u ts | _ => false end.
+(* "the same session-less event" (Recompute / other): used to count that none is lost or duplicated *)
+Definition is_rec (e0 e : event) : bool :=
+  match e, e0 with
+  | ERecompute b, ERecompute a => Z.eqb b a
+  | EOther b q d, EOther a p c => Z.eqb b a && Z.eqb q p && Z.eqb d c
+  | _, _ => false
+  end.
+Lemma is_rec_eq e0 e : is_rec e0 e = true -> e = e0 /\ ev_session e0 = None.
+Proof.
+  destruct e, e0; simpl; try discriminate.
+  - intro H. apply Z.eqb_eq in H. subst. auto.
+  - intro H. apply andb_true_iff in H. destruct H as (H & H3). apply andb_true_iff in H. destruct H as (H1 & H2).
+    apply Z.eqb_eq in H1, H2, H3. subst. auto.
+Qed.
+Lemma is_rec_refl e0 : ev_session e0 = None -> is_rec e0 e0 = true.
+Proof. destruct e0; simpl; try discriminate; intros _; rewrite ?Z.eqb_refl; reflexivity. Qed.
 
 Definition zrange (n : Z) : list Z := map Z.of_nat (seq 0 (Z.to_nat n)).
 Lemma zrange_succ n : 0 <= n -> zrange (n + 1) = zrange n ++ [n].
@@ -542,6 +568,7 @@ Section C01.
     | EPlugin ts x => In (EPlugin ts x) evs
     | EUnplug ts x => In x sessions /\ ts = s_departure x
     | ERecompute ts => In (ERecompute ts) evs
+    | EOther ts p c => In (EOther ts p c) evs
     end.
 
   Lemma valid_in e : In e evs -> valid_event stations e.
@@ -566,11 +593,12 @@ Section C01.
 
   Lemma good_bounds e : good e -> 0 <= ev_ts e <= max_ts evs.
   Proof.
-    destruct e as [ts x|ts x|ts]; simpl.
+    destruct e as [ts x|ts x|ts|ts p c]; simpl.
     - intro I. pose proof (valid_in _ I) as (E & _ & R). pose proof (max_ts_ge _ _ I) as M. simpl in M. lia.
     - intros (I & ->). destruct (session_props x I) as (J & _ & R).
       pose proof (max_ts_ge _ _ J) as M. simpl in M. lia.
     - intro I. pose proof (valid_in _ I) as E. pose proof (max_ts_ge _ _ I) as M. simpl in *. lia.
+    - intro I. pose proof (valid_in _ I) as (E & _). pose proof (max_ts_ge _ _ I) as M. simpl in *. lia.
   Qed.
 
   (* ---- the invariant while the events of period t are being processed ------------------- *)
@@ -587,7 +615,7 @@ Section C01.
     i_occ2 : forall x, In x sessions -> cnt (is_unpl (skey x)) pend = 1%nat ->
         occ_get (s_station x) (occ st) = Some x;
     (* given Recompute events are neither lost nor duplicated *)
-    i_cons3 : forall ts, (cnt (is_rec ts) pend + cnt (is_rec ts) (map snd (hist st)) = cnt (is_rec ts) evs)%nat }.
+    i_cons3 : forall e0, (cnt (is_rec e0) pend + cnt (is_rec e0) (map snd (hist st)) = cnt (is_rec e0) evs)%nat }.
 
   Lemma Inv_weaken t t' pend st : t <= t' -> Inv t pend st -> Inv t' pend st.
   Proof.
@@ -601,7 +629,7 @@ Section C01.
     In (EUnplug (s_departure y) y) pend.
   Proof.
     intros G Iy C. apply cnt_pos_ex in C. destruct C as (e & Ie & Ee).
-    destruct e as [|ts z|]; simpl in Ee; try discriminate.
+    destruct e as [|ts z| |]; simpl in Ee; try discriminate.
     apply key_eqb_eq in Ee. destruct (G _ Ie) as (Iz & ->).
     assert (z = y) by (apply sid_inj; auto). subst z. exact Ie.
   Qed.
@@ -612,7 +640,7 @@ Section C01.
   Proof.
     intros I Iy C. apply cnt_pos_ex in C. destruct C as (e & Ie & Ee).
     apply in_map_iff in Ie. destruct Ie as ((u & e') & E' & Ie). simpl in E'. subst e'.
-    destruct e as [ts z| |]; simpl in Ee; try discriminate.
+    destruct e as [ts z| | |]; simpl in Ee; try discriminate.
     apply key_eqb_eq in Ee. destruct (i_good_h _ _ _ I _ _ Ie) as (G & -> & L).
     destruct (good_plugin _ _ G) as (Iz & ->).
     assert (z = y) by (apply sid_inj; auto). subst z. simpl in *. auto.
@@ -624,7 +652,7 @@ Section C01.
   Proof.
     intros I Iy C. apply cnt_pos_ex in C. destruct C as (e & Ie & Ee).
     apply in_map_iff in Ie. destruct Ie as ((u & e') & E' & Ie). simpl in E'. subst e'.
-    destruct e as [|ts z|]; simpl in Ee; try discriminate.
+    destruct e as [|ts z| |]; simpl in Ee; try discriminate.
     apply key_eqb_eq in Ee. destruct (i_good_h _ _ _ I _ _ Ie) as ((Iz & ->) & -> & L).
     assert (z = y) by (apply sid_inj; auto). subst z. simpl in *. auto.
   Qed.
@@ -647,13 +675,13 @@ Section C01.
     Forall (key_le e) (rc ++ queue st) ->
     exists st', process_event (log_event N V st e) e = OkS st' /\
       Inv t (rc ++ queue st') st' /\ iter st' = t /\ hist st' = hist st ++ [(t, e)] /\
-      resolve st' = true /\ calls st' = calls st /\ occ_log st' = occ_log st /\ num st' = num st /\
+      (resolving e = true -> resolve st' = true) /\ calls st' = calls st /\ occ_log st' = occ_log st /\ num st' = num st /\
       (queue st' = queue st \/
        exists u, queue st' = q_insert u (queue st) /\ t < ev_ts u).
   Proof.
     intros Hit Hts I K. rewrite Forall_forall in K.
     assert (Ge : good e) by (apply (i_good_p _ _ _ I); left; auto).
-    destruct e as [ts x|ts x|ts].
+    destruct e as [ts x|ts x|ts|ts p c].
     - (* ---------------- Plugin ---------------- *)
       destruct (good_plugin _ _ Ge) as (Ix & Ea). simpl in Hts. subst ts.
       destruct (session_props x Ix) as (Iev & Ist & R).
@@ -765,6 +793,24 @@ Section C01.
       + intros s y Oy. destruct (i_occ1 _ _ _ I _ _ Oy) as (Iy & Sy & Cy). repeat split; auto.
       + intros z Iz Cz. apply (i_occ2 _ _ _ I); auto.
       + intros ts0. pose proof (i_cons3 _ _ _ I ts0) as C. cnts. lia.
+    - (* ---------------- any other event: logged, otherwise ignored ---------------- *)
+      simpl in Ge. pose proof (valid_in _ Ge) as (_ & C0 & C1 & C2).
+      rewrite (process_other_eq N V stations _ ts p c C0 C1 C2). cbn [log_event].
+      eexists. split; [reflexivity|]. red_st.
+      split.
+      2:{ rewrite Hit. repeat split; auto. unfold resolving. cbn [ev_code].
+          apply Z.eqb_neq in C0, C1, C2. rewrite C0, C1, C2. discriminate. }
+      constructor; red_st.
+      + intros e' Ie'. apply (i_good_p _ _ _ I). right; auto.
+      + intros u e' Ie'. apply in_app_or in Ie'. destruct Ie' as [Ie'|[Ie'|[]]].
+        * apply (i_good_h _ _ _ I); auto.
+        * inversion Ie'; subst. simpl in *. repeat split; auto; lia.
+      + intros z Iz. pose proof (i_cons1 _ _ _ I z Iz) as C. cnts. simpl is_plug in *. lia.
+      + intros z Iz. pose proof (i_cons2 _ _ _ I z Iz) as C. cnts.
+        simpl is_plug in *. simpl is_unpl in *. lia.
+      + intros s y Oy. destruct (i_occ1 _ _ _ I _ _ Oy) as (Iy & Sy & Cy). repeat split; auto.
+      + intros z Iz Cz. apply (i_occ2 _ _ _ I); auto.
+      + intros ts0. pose proof (i_cons3 _ _ _ I ts0) as C. cnts. lia.
   Qed.
 
   (* all events of period t, in queue order *)
@@ -775,13 +821,13 @@ Section C01.
     exists st', process_all cur st = OkS st' /\
       Inv t (queue st') st' /\ iter st' = t /\ hist st' = hist st ++ map (pair t) cur /\
       sorted (queue st') /\ Forall (fun e => t < ev_ts e) (queue st') /\
-      (cur <> [] -> resolve st' = true) /\ (cur = [] -> st' = st) /\
+      True /\ (cur = [] -> st' = st) /\
       calls st' = calls st /\ occ_log st' = occ_log st /\ num st' = num st.
   Proof.
     induction cur as [|e r IH]; intros st Hit I Sc Tc Sq Gq.
     - exists st. simpl in *. rewrite app_nil_r.
       split; [reflexivity|]. split; [exact I|]. split; [exact Hit|]. split; [reflexivity|].
-      split; [exact Sq|]. split; [exact Gq|]. split; [intro H; congruence|]. auto.
+      split; [exact Sq|]. split; [exact Gq|]. split; [exact Logic.I|]. auto.
     - apply StronglySorted_inv in Sc. destruct Sc as (Sr & Fr).
       apply Forall_cons_iff in Tc. destruct Tc as (Te & Tr).
       assert (K : Forall (key_le e) (r ++ queue st)).
@@ -800,10 +846,7 @@ Section C01.
       split; [exact P|]. split; [exact I'|]. split; [exact It'|].
       split; [rewrite H', H1, <- app_assoc; reflexivity|].
       split; [exact S'|]. split; [exact G'|].
-      split.
-      { intros _. destruct r as [|e2 r2].
-        - rewrite (E' eq_refl). auto.
-        - apply R'. discriminate. }
+      split; [exact Logic.I|].
       split; [intro H; discriminate|].
       repeat split; congruence.
   Qed.
@@ -828,7 +871,7 @@ Section C01.
       { destruct (cnt (is_plug (skey y)) q) eqn:E; auto. exfalso.
         assert (P : (cnt (is_plug (skey y)) q > 0)%nat) by lia.
         apply cnt_pos_ex in P. destruct P as (e & Ie & Ee).
-        destruct e as [ts z| |]; simpl in Ee; try discriminate. apply key_eqb_eq in Ee.
+        destruct e as [ts z| | |]; simpl in Ee; try discriminate. apply key_eqb_eq in Ee.
         destruct (good_plugin _ _ (i_good_p _ _ _ I _ Ie)) as (Iz & ->).
         assert (z = y) by (apply sid_inj; auto). subst z.
         pose proof (G _ Ie) as L. simpl in L. lia. }
@@ -1085,18 +1128,21 @@ Section C01.
     intros L G. destruct (final_props st L G) as (Q & _ & FP & _).
     pose proof (l_inv _ L) as I. rewrite Q in I.
     split; [|split].
-    - intros e Ie. pose proof (valid_in _ Ie) as Ve. destruct e as [ts x|ts x|ts]; simpl in Ve.
+    - assert (NS : forall e0, In e0 evs -> ev_session e0 = None -> In (ev_ts e0, e0) (hist st)).
+      { intros e0 Ie NSe. pose proof (i_cons3 _ _ _ I e0) as C. rewrite cnt_nil in C.
+        assert (P : (cnt (is_rec e0) evs > 0)%nat) by (eapply cnt_in_pos; eauto; apply is_rec_refl; auto).
+        assert (P' : (cnt (is_rec e0) (map snd (hist st)) > 0)%nat) by lia.
+        apply cnt_pos_ex in P'. destruct P' as (e & Ie' & Ee).
+        apply in_map_iff in Ie'. destruct Ie' as ((u & e') & E' & Ie'). simpl in E'. subst e'.
+        apply is_rec_eq in Ee. destruct Ee as (-> & _).
+        destruct (i_good_h _ _ _ I _ _ Ie') as (_ & -> & _). exact Ie'. }
+      intros e Ie. pose proof (valid_in _ Ie) as Ve. destruct e as [ts x|ts x|ts|ts p c]; simpl in Ve.
       + destruct Ve as (-> & _). simpl.
         assert (Ix : In x sessions) by (apply in_sessions_of; eauto).
         destruct (FP x Ix) as (_ & _ & H & _). exact H.
       + contradiction.
-      + pose proof (i_cons3 _ _ _ I ts) as C. rewrite cnt_nil in C.
-        assert (P : (cnt (is_rec ts) evs > 0)%nat) by (eapply cnt_in_pos; eauto; simpl; apply Z.eqb_refl).
-        assert (P' : (cnt (is_rec ts) (map snd (hist st)) > 0)%nat) by lia.
-        apply cnt_pos_ex in P'. destruct P' as (e & Ie' & Ee).
-        apply in_map_iff in Ie'. destruct Ie' as ((u & e') & E' & Ie'). simpl in E'. subst e'.
-        destruct e as [| |ts']; simpl in Ee; try discriminate. apply Z.eqb_eq in Ee. subst ts'.
-        destruct (i_good_h _ _ _ I _ _ Ie') as (_ & -> & _). exact Ie'.
+      + apply NS; auto.
+      + apply NS; auto.
     - intros x Ix. destruct (FP x Ix) as (_ & _ & _ & H). exact H.
     - intros u e Ie. destruct (i_good_h _ _ _ I _ _ Ie) as (A & B & _). auto.
   Qed.
@@ -1110,12 +1156,13 @@ Section C01.
     rewrite FI. rewrite (last_ts_max (hist st) (max_ts evs)); [lia| | |pose proof (max_ts_nonneg evs); lia].
     - destruct (max_ts_attained evs NE) as (e & Ie & Ee).
       { intros e Ie. pose proof (valid_in _ Ie) as Ve. destruct e; simpl in *; lia. }
-      pose proof (valid_in _ Ie) as Ve. destruct e as [ts x|ts x|ts]; simpl in Ve, Ee.
+      pose proof (valid_in _ Ie) as Ve. destruct e as [ts x|ts x|ts|ts p c]; simpl in Ve, Ee.
       + destruct Ve as (-> & _ & R).
         assert (Ix : In x sessions) by (apply in_sessions_of; eauto).
         exists (s_departure x, EUnplug (s_departure x) x). split; [apply UP; auto|]. simpl. lia.
       + contradiction.
       + exists (ts, ERecompute ts). split; [apply (AP _ Ie)|]. simpl. lia.
+      + exists (ts, EOther ts p c). split; [apply (AP _ Ie)|]. simpl. lia.
     - intros (u, e) Ie. simpl. destruct (GH _ _ Ie) as (Ge & _). pose proof (good_bounds _ Ge). lia.
   Qed.
 
@@ -1251,50 +1298,61 @@ Section C05.
     - inversion H; subst. auto.
   Qed.
 
-  (* every processed event sets _resolve and leaves the logs alone *)
+  (* an event the simulator dispatches on (Plugin / Unplug / Recompute) sets _resolve; any other queue
+     entry changes neither _resolve nor _last_schedule_update; the logs are left alone *)
   Lemma process_event_facts (st st' : state) e :
     process_event st e = OkS st' ->
-    iter st' = iter st /\ hist st' = hist st /\ calls st' = calls st /\ resolve st' = true.
+    iter st' = iter st /\ hist st' = hist st /\ calls st' = calls st /\
+    (resolving e = true -> resolve st' = true) /\
+    (resolving e = false -> resolve st' = resolve st /\ last_upd st' = last_upd st).
   Proof.
-    destruct e as [ts x|ts x|ts].
+    destruct e as [ts x|ts x|ts|ts p c].
     - rewrite process_plugin_eq. destruct (net_plugin stations x (occ st)); intro H; inversion H; subst.
-      red_st. auto.
+      red_st. repeat split; auto; discriminate.
     - rewrite process_unplug_eq. destruct (net_unplug stations (s_station x) (sid x) (occ st));
-        intro H; inversion H; subst. red_st. auto.
-    - rewrite process_recompute_eq. intro H; inversion H; subst. red_st. auto.
+        intro H; inversion H; subst. red_st. repeat split; auto; discriminate.
+    - rewrite process_recompute_eq. intro H; inversion H; subst. red_st. repeat split; auto; discriminate.
+    - unfold SimSkel.process_event, Simulator_process_event, resolving. cbn [ev_session ev_code ev_ts].
+      destruct (c =? 0) eqn:E0; [cbn; discriminate|].
+      destruct (c =? 1) eqn:E1; [cbn; discriminate|].
+      destruct (c =? 2) eqn:E2; cbn; intro H; inversion H; subst; red_st; repeat split; auto; discriminate.
   Qed.
 
   Lemma process_all_facts cur : forall (st st' : state),
     process_all cur st = OkS st' ->
     iter st' = iter st /\ hist st' = hist st ++ map (pair (iter st)) cur /\ calls st' = calls st /\
-    (cur <> [] -> resolve st' = true) /\ (cur = [] -> st' = st).
+    (existsb resolving cur = true -> resolve st' = true) /\
+    (existsb resolving cur = false -> resolve st' = resolve st /\ last_upd st' = last_upd st).
   Proof.
     induction cur as [|e r IH]; simpl; intros st st' H.
-    - inversion H; subst. rewrite app_nil_r. repeat split; auto; intro; congruence.
+    - inversion H; subst. rewrite app_nil_r. repeat split; auto; discriminate.
     - destruct (process_event (log_event N V st e) e) as [st1|ex st1] eqn:P; [|discriminate].
-      destruct (process_event_facts _ _ _ P) as (A & B & C & D). red_st.
+      destruct (process_event_facts _ _ _ P) as (A & B & C & D & E). red_st.
       destruct (IH _ _ H) as (A' & B' & C' & D' & E').
       split; [congruence|]. split; [rewrite B', B, A, <- app_assoc; reflexivity|].
-      split; [congruence|]. split; [|intro; discriminate].
-      intros _. destruct r; [rewrite (E' eq_refl); auto|apply D'; discriminate].
+      split; [congruence|].
+      destruct (existsb resolving r) eqn:Er.
+      + rewrite orb_true_r. split; [intros _; apply D'; reflexivity|discriminate].
+      + rewrite orb_false_r. destruct (E' eq_refl) as (E1 & E2). split.
+        * intro R. rewrite E1. apply D; auto.
+        * intro R. destruct (E R) as (F1 & F2). split; congruence.
   Qed.
 
   Lemma events_phase_facts (st st1 : state) :
     events_phase st = OkS st1 ->
     exists cur, iter st1 = iter st /\ hist st1 = hist st ++ map (pair (iter st)) cur /\
-      calls st1 = calls st /\ (cur <> [] -> resolve st1 = true) /\
-      (cur = [] -> resolve st1 = resolve st /\ last_upd st1 = last_upd st).
+      calls st1 = calls st /\ (existsb resolving cur = true -> resolve st1 = true) /\
+      (existsb resolving cur = false -> resolve st1 = resolve st /\ last_upd st1 = last_upd st).
   Proof.
     unfold SimSkel.events_phase. destruct (q_pop_current (iter st) (queue st)) as [cur rest].
     intro H. destruct (process_all_facts _ _ _ H) as (A & B & C & D & E). red_st.
-    exists cur. split; auto. split; auto. split; auto. split; auto.
-    intro Ec. rewrite (E Ec). split; reflexivity.
+    exists cur. split; auto.
   Qed.
 
   (* invariant at the head of the loop, for ANY event list *)
   Definition invoked_spec (cs : list Z) (h : list (Z * event)) (t : Z) : Prop :=
     In t cs <->
-    (exists e, In (t, e) h) \/
+    (exists e, In (t, e) h /\ resolving e = true) \/
     (exists k, maxrec = Some k /\
                match prev_call cs t with None => True | Some l => k <= t - l end).
 
@@ -1359,7 +1417,7 @@ Section C05.
     rewrite tail_phase_eq in TP.
     destruct (num_charge (iter st2) (occ st2) (num st2)) as [n|e]; [|discriminate].
     inversion TP; subst st'; clear TP. red_st. split; [|rewrite It2; reflexivity].
-    assert (Hcur : cur <> [] -> called = true).
+    assert (Hcur : existsb resolving cur = true -> called = true).
     { intro NE. rewrite CC, recompute_cond_spec, (R1 NE). reflexivity. }
     assert (Hold : forall a, In a (map fst (calls st)) -> a < t).
     { intros a Ia. apply (c_lt _ _ C) in Ia. fold t in Ia. lia. }
@@ -1371,9 +1429,9 @@ Section C05.
     - reflexivity.
     - rewrite L2, Hcalls. destruct called.
       + rewrite last_opt_snoc. reflexivity.
-      + rewrite app_nil_r. destruct cur as [|c0 cr].
+      + rewrite app_nil_r. destruct (existsb resolving cur) eqn:Ex.
+        * discriminate (Hcur eq_refl).
         * destruct (E1 eq_refl) as (_ & ->). apply (c_last _ _ C).
-        * discriminate (Hcur ltac:(discriminate)).
     - intros a Ia. rewrite Hcalls in Ia. apply in_app_or in Ia. pose proof (c_iter _ _ C). fold t in H.
       destruct Ia as [Ia|Ia].
       + apply (c_lt _ _ C) in Ia. fold t in Ia. lia.
@@ -1393,35 +1451,36 @@ Section C05.
             + apply Hold in I. lia.
             + destruct called; [reflexivity|destruct I].
           - intros ->. apply in_or_app. right. simpl. auto. }
-        assert (P2 : (exists e, In (t, e) (hist st ++ map (pair t) cur)) <-> cur <> []).
-        { split.
-          - intros (e & I). apply in_app_or in I. destruct I as [I|I].
+        assert (P2 : (exists e, In (t, e) (hist st ++ map (pair t) cur) /\ resolving e = true)
+                     <-> existsb resolving cur = true).
+        { rewrite existsb_exists. split.
+          - intros (e & I & R). apply in_app_or in I. destruct I as [I|I].
             + apply (c_hlt _ _ C) in I. fold t in I. lia.
-            + destruct cur; [destruct I|discriminate].
-          - intro NE. destruct cur as [|c0 cr]; [congruence|]. exists c0.
-            apply in_or_app. right. simpl. auto. }
+            + apply in_map_iff in I. destruct I as (a & Ea & Ia). inversion Ea; subst. eauto.
+          - intros (e & Ie & R). exists e. split; auto. apply in_or_app. right. apply in_map; auto. }
         assert (P3 : prev_call (map fst (calls st) ++ (if called then [t] else [])) t
                      = last_opt (map fst (calls st))).
         { destruct called.
           - rewrite prev_call_stable by lia. apply prev_call_all. exact Hold.
           - rewrite app_nil_r. apply prev_call_all. exact Hold. }
         rewrite P1, P2, P3.
-        destruct cur as [|c0 cr].
-        * destruct (E1 eq_refl) as (Er & El). rewrite CC, recompute_cond_spec, Er, El, (c_res _ _ C), (c_last _ _ C).
+        destruct (existsb resolving cur) eqn:Ex.
+        2:{ destruct (E1 eq_refl) as (Er & El). rewrite CC, recompute_cond_spec, Er, El, (c_res _ _ C), (c_last _ _ C).
           simpl orb. split.
           -- intro H. right. destruct maxrec as [k|]; [|discriminate]. exists k. split; auto.
              destruct (last_opt (map fst (calls st))); auto. apply Z.leb_le; auto.
           -- intros [H|(k & -> & H)]; [congruence|].
-             destruct (last_opt (map fst (calls st))); auto. apply Z.leb_le; auto.
-        * split; [intros _; left; discriminate|intros _; apply Hcur; discriminate].
+             destruct (last_opt (map fst (calls st))); auto. apply Z.leb_le; auto. }
+        split; [intros _; left; reflexivity|intros _; apply Hcur; reflexivity].
       + (* an earlier period: nothing changes *)
         assert (Lt' : 0 <= t' < t) by lia.
         pose proof (c_iff _ _ C t' Lt') as Old. unfold invoked_spec in Old.
         assert (Q1 : In t' (map fst (calls st) ++ (if called then [t] else [])) <-> In t' (map fst (calls st))).
         { split; [|intro; apply in_or_app; auto]. intro I. apply in_app_or in I. destruct I as [I|I]; auto.
           destruct called; simpl in I; [destruct I as [I|[]]; congruence|contradiction]. }
-        assert (Q2 : (exists e, In (t', e) (hist st ++ map (pair t) cur)) <-> exists e, In (t', e) (hist st)).
-        { split; intros (e & I); exists e; [|apply in_or_app; auto].
+        assert (Q2 : (exists e, In (t', e) (hist st ++ map (pair t) cur) /\ resolving e = true)
+                     <-> exists e, In (t', e) (hist st) /\ resolving e = true).
+        { split; intros (e & I & R); exists e; (split; [|exact R]); [|apply in_or_app; auto].
           apply in_app_or in I. destruct I as [I|I]; auto.
           apply in_map_iff in I. destruct I as (a & Ea & _). inversion Ea; congruence. }
         assert (Q3 : prev_call (map fst (calls st) ++ (if called then [t] else [])) t'
@@ -1551,7 +1610,8 @@ Section ValidCalls.
   Qed.
   (* "an event occurred in period t", in terms of the input *)
   Definition occurs_at (t : Z) : Prop :=
-    (exists e, In e evs /\ ev_ts e = t) \/ (exists x, In x (sessions_of evs) /\ s_departure x = t).
+    (exists e, In e evs /\ ev_ts e = t /\ resolving e = true) \/
+    (exists x, In x (sessions_of evs) /\ s_departure x = t).
 
   Lemma invoked_iff_valid n0 (st : state) :
     run (fuel_of evs) (init N V evs n0) = Done st ->
@@ -1566,14 +1626,17 @@ Section ValidCalls.
     pose proof (c_iff _ _ _ _ _ _ _ _ _ _ _ _ C t Ht) as IFF. unfold invoked_spec in IFF.
     destruct (c01_all_processed N V Sch stations maxrec num_view num_apply num_charge num_store sched evs VALID n0 st R)
       as (AP & UP & GH).
-    assert (E : (exists e, In (t, e) (hist st)) <-> occurs_at t).
+    assert (E : (exists e, In (t, e) (hist st) /\ resolving e = true) <-> occurs_at t).
     { unfold occurs_at. split.
-      - intros (e & Ie). destruct (GH _ _ Ie) as (Ge & Et).
-        destruct e as [ts x|ts x|ts]; simpl in Ge, Et.
+      - intros (e & Ie & Re). destruct (GH _ _ Ie) as (Ge & Et).
+        destruct e as [ts x|ts x|ts|ts p c]; simpl in Ge, Et.
         + left. exists (EPlugin ts x). auto.
         + right. destruct Ge as (Ix & ->). exists x. auto.
         + left. exists (ERecompute ts). auto.
-      - intros [(e & Ie & <-)|(x & Ix & <-)]; eexists; [apply AP; eauto|apply UP; eauto]. }
+        + left. exists (EOther ts p c). auto.
+      - intros [(e & Ie & <- & Re)|(x & Ix & <-)].
+        + exists e. split; [apply AP; auto|exact Re].
+        + exists (EUnplug (s_departure x) x). split; [apply UP; auto|reflexivity]. }
     rewrite <- E. exact IFF.
   Qed.
 End ValidCalls.
